@@ -12,6 +12,7 @@ import (
 	"reflect"
 	"sort"
 	"strings"
+	"sync"
 	"time"
 
 	"github.com/protolambda/zrnt/eth2/beacon"
@@ -1057,8 +1058,10 @@ func runC05Staleness(b *fw.B) {
 			}
 			return true
 		}
+		var last *sim.Chain
 		hooks := chainHooks{afterStep: func(c *sim.Chain, where string, isBlock bool, built *sim.Built) bool {
 			c05spec = c.ZSpec
+			last = c
 			return check(c.Z, where)
 		}, beforeBlock: func(c *sim.Chain, built *sim.Built) bool {
 			// the block's own transition checks the state root and would stop the chain first:
@@ -1077,11 +1080,88 @@ func runC05Staleness(b *fw.B) {
 			}
 			return false
 		}}
-		runChain(b, sc, hooks, func(m *sim.Mismatch, trace []string) {
+		ok := runChain(b, sc, hooks, func(m *sim.Mismatch, trace []string) {
 			if m.Kind == "root-mismatch" {
 				b.Violate("staleness/root-vs-reference", m.What+" — scenario "+sc.String(), nil)
 			}
 		})
+		for r := 0; r < 3 && ok && last != nil && !b.Stop(); r++ {
+			c05ConcurrentStates(b, last, sc)
+		}
+	}
+}
+
+// c05ConcurrentStates: the chain's last state is loaded several times from its bytes (no shared tree nodes, own contexts) and the copies
+// are advanced over the next epoch boundary at the same time in different goroutines; each must arrive at the root the same steps give
+// when run alone, and each live root must equal the root rebuilt from the state's own bytes. Anything the library keeps process-wide
+// while hashing (a shared hasher, a shared scratch buffer) would let independent states disturb each other's roots.
+func c05ConcurrentStates(b *fw.B, c *sim.Chain, sc scenario) {
+	data, err := sim.ZrntStateBytes(c.Z)
+	if err != nil {
+		return
+	}
+	fork := sim.ZrntFork(c.Z)
+	spe := uint64(c.ZSpec.SLOTS_PER_EPOCH)
+	target := common.Slot(c.Ref.Slot + spe + 2)
+	run := func() (root common.Root, rebuilt common.Root, err error) {
+		z, err := sim.LoadZrntState(c.ZSpec, fork, data)
+		if err != nil {
+			return root, rebuilt, err
+		}
+		epc, err := common.NewEpochsContext(c.ZSpec, z)
+		if err != nil {
+			return root, rebuilt, err
+		}
+		st := &beacon.StandardUpgradeableBeaconState{BeaconState: z}
+		if err := common.ProcessSlots(context.Background(), c.ZSpec, epc, st, target); err != nil {
+			return root, rebuilt, err
+		}
+		root = sim.ZrntStateRoot(st)
+		out, err := sim.ZrntStateBytes(st)
+		if err != nil {
+			return root, rebuilt, err
+		}
+		re, err := sim.LoadZrntState(c.ZSpec, sim.ZrntFork(st), out)
+		if err != nil {
+			return root, rebuilt, err
+		}
+		return root, sim.ZrntStateRoot(re), nil
+	}
+	want, wantRe, err := run()
+	if err != nil || want != wantRe {
+		return // the sequential run is judged by the chain part
+	}
+	const G = 6
+	type res struct {
+		root, re common.Root
+		err      error
+		p        any
+	}
+	out := make([]res, G)
+	var wg sync.WaitGroup
+	for g := 0; g < G; g++ {
+		wg.Add(1)
+		go func(g int) {
+			defer wg.Done()
+			defer func() {
+				if p := recover(); p != nil {
+					out[g].p = p
+				}
+			}()
+			out[g].root, out[g].re, out[g].err = run()
+		}(g)
+	}
+	wg.Wait()
+	b.Inc("concurrent_independent_state_runs")
+	for g := range out {
+		if out[g].p != nil || out[g].err != nil {
+			b.Violate("concurrent-states/failed", fmt.Sprintf("advancing an independent copy of the state next to %d others failed (panic %v, err %v) although the same steps succeed alone — scenario %s", G-1, out[g].p, out[g].err, sc.String()), nil)
+			return
+		}
+		if out[g].root != want || out[g].re != out[g].root {
+			b.Violate("concurrent-states/root-differs", fmt.Sprintf("an independent copy of the state advanced to slot %d next to %d others reports root %x (rebuilt from its bytes: %x); the same steps alone give %x — scenario %s", target, G-1, out[g].root[:6], out[g].re[:6], want[:6], sc.String()), nil)
+			return
+		}
 	}
 }
 
